@@ -91,10 +91,12 @@ Definition child_ratio (l2r : l2rmap) (l r : id) : option (nat * nat) :=
   | _, _ => Some (count_matched l2r lk rk, Nat.max (length lk) (length rk))
   end.
 
-(* the uniqueattrs loop of node_ratio (with the ignored-attribute guard) *)
-Fixpoint uniq_decide (us : list uattr) (lt rt : tagt) (la ra : list (str * str)) : option sim :=
+(* the uniqueattrs loop of node_ratio (with the ignored-attribute guard): every
+   applicable, non-ignored unique attribute present on either node must agree;
+   `found` records that at least one was present *)
+Fixpoint uniq_decide (us : list uattr) (lt rt : tagt) (la ra : list (str * str)) (found : bool) : option sim :=
   match us with
-  | [] => None
+  | [] => if found then Some one else None
   | u :: rest =>
       let '(applies, attr) :=
         match u with
@@ -102,8 +104,10 @@ Fixpoint uniq_decide (us : list uattr) (lt rt : tagt) (la ra : list (str * str))
         | UTA t a => (tag_eqb (TElem t) lt && tag_eqb (TElem t) rt, a)
         end in
       if applies && negb (smem attr (oignored o)) && (ahas la attr || ahas ra attr)
-      then Some (if ostr_eqb (aget la attr) (aget ra attr) then one else zero)
-      else uniq_decide rest lt rt la ra
+      then if ostr_eqb (aget la attr) (aget ra attr)
+           then uniq_decide rest lt rt la ra true
+           else Some zero
+      else uniq_decide rest lt rt la ra found
   end.
 
 (* Differ.node_ratio *)
@@ -114,7 +118,7 @@ Definition node_ratio (l2r : l2rmap) (l r : id) : sim :=
     then leaf_sim (otext (ltext ll)) (otext (ltext rl))
     else zero
   else
-    match uniq_decide (ouniq o) (ltag ll) (ltag rl) (lattrs ll) (lattrs rl) with
+    match uniq_decide (ouniq o) (ltag ll) (ltag rl) (lattrs ll) (lattrs rl) false with
     | Some s => s
     | None =>
         let m := leaf_sim (node_text L l) (node_text R r) in
